@@ -60,6 +60,8 @@ type runSpec struct {
 	Target     string `json:"target,omitempty"`
 	When       int    `json:"when,omitempty"`
 	Persistent bool   `json:"persistent,omitempty"`
+	// CSV: histo also exports its counts (-o FILE, next to the tree, not inside it): the exit status is still the scan's
+	CSV bool `json:"csv,omitempty"`
 }
 
 const filterExtract = "{src}:{line}:{0}"
@@ -80,6 +82,9 @@ func (s *runSpec) argv(root string) []string {
 		a = append(a, "-e", filterExtract)
 	case "histo":
 		a = append(a, "-m", histoRegex, "-e", "{1}", "-e", "{2}")
+		if s.CSV {
+			a = append(a, []string{"-o", "--csv"}[len(s.Args)%2], strings.TrimRight(root, "/")+".export.csv")
+		}
 	}
 	if s.Recursive {
 		a = append(a, "-R")
@@ -441,6 +446,9 @@ func (e *env) judge(spec *runSpec, mentions []mention, unjudged map[string]bool,
 	c.Count("cli_runs", 1)
 	c.Count(fmt.Sprintf("exit:%d", res.code), 1)
 	c.Count("cmd:"+spec.Cmd, 1)
+	if spec.CSV {
+		c.Count("histo_runs_with_csv_export", 1)
+	}
 	c.Count("mentions", int64(len(mentions)))
 	c.Max("max_inputs_in_a_run", int64(len(mentions)))
 	if spec.Gunzip {
@@ -605,6 +613,7 @@ func baseSpec(r *run.Rand) *runSpec {
 		s.Cmd = "histo"
 	}
 	s.Gunzip = r.Intn(2) == 0
+	s.CSV = s.Cmd == "histo" && r.Intn(2) == 0
 	s.Readers = []int{0, 1, 1, 2, 3, 4, 8}[r.Intn(7)]
 	s.Batch = []int{0, 1, 2, 3, 7, 50, 1000}[r.Intn(7)]
 	s.Workers = []int{0, 1, 2, 4}[r.Intn(4)]
